@@ -484,6 +484,7 @@ class Interp:
         self.top: dict[str, object] = {}
         self.decl_kind: dict[str, str] = {}
         self._fresh = 0
+        self.types = None  # set to {} to record the reference type of every evaluated expression
 
     # -- statements ---------------------------------------------------------------------
     def run(self):
@@ -586,6 +587,12 @@ class Interp:
         return t
 
     def eval(self, e, env):
+        v = self._eval(e, env)
+        if self.types is not None:
+            self.types[id(e)] = v.ty if isinstance(v, SigV) else None
+        return v
+
+    def _eval(self, e, env):
         if isinstance(e, Num):
             return IntV(wrap(e.v))
         if isinstance(e, Paren):
@@ -1098,3 +1105,75 @@ def declared_names(stmts) -> list:
         if isinstance(s, (Decl, MemDecl)):
             out.append(s.name)
     return out
+
+
+def _flatten_logic(e, op, acc):
+    while isinstance(e, Paren):
+        e = e.e
+    if isinstance(e, Bin) and e.op == op:
+        _flatten_logic(e.l, op, acc)
+        _flatten_logic(e.r, op, acc)
+    else:
+        acc.append(e)
+    return acc
+
+
+def same_type_fanin(prog: Program, limit: int = 3) -> bool:
+    """True if some combinator-to-be (operator, folded &&/|| chain, cond:value) receives `limit` or more
+    distinct operands of one signal type according to the reference typing.  Abstract-level trigger
+    predicate of the open finding F-three-same (two wire colours cannot separate three same-named sources)."""
+    try:
+        it = Interp(prog, inputs={}, mems={s.name: SigV(s.ty or UNK, 0) for s in prog.stmts if isinstance(s, MemDecl)})
+        it.types = {}
+        it.run()
+    except Exception:  # noqa: BLE001
+        return False
+    types = it.types
+
+    def strip(e):
+        while isinstance(e, Paren):
+            e = e.e
+        return e
+
+    def operands_of(e):
+        e = strip(e)
+        if isinstance(e, Cond):
+            c = strip(e.c)
+            ops = []
+            if isinstance(c, Bin) and c.op in LOGIC_OPS:
+                for part in _flatten_logic(c, c.op, []):
+                    part = strip(part)
+                    ops += [part.l, part.r] if isinstance(part, Bin) and part.op in CMP_OPS else [part]
+            elif isinstance(c, Bin):
+                ops += [c.l, c.r]
+            else:
+                ops.append(c)
+            return ops + [e.v]
+        if isinstance(e, Bin) and e.op in LOGIC_OPS:
+            ops = []
+            for part in _flatten_logic(e, e.op, []):
+                part = strip(part)
+                ops += [part.l, part.r] if isinstance(part, Bin) and part.op in CMP_OPS else [part]
+            return ops
+        if isinstance(e, Bin):
+            return [e.l, e.r]
+        return []
+
+    def visit(e):
+        ops = operands_of(e)
+        seen = {}
+        for o in ops:
+            t = types.get(id(o))
+            if t is None or t == UNK:
+                continue
+            key = repr(strip(o))
+            seen.setdefault(t, set()).add(key)
+        if any(len(v) >= limit for v in seen.values()):
+            return True
+        return any(visit(c) for c in children(e) if not isinstance(c, str))
+
+    for s in prog.stmts:
+        for e in stmt_exprs(s):
+            if visit(e):
+                return True
+    return False
